@@ -20,6 +20,20 @@ from symx.core import Ctx, SymBool, SymReal, Stats, explore, Inconclusive, Unsup
 from . import lib, runner
 
 ATOMS = ["(p o1)", "(q o1 o2)", "(q o2 o2)", "(r)"]
+# o3 is of type t3, a strict subtype of the declared parameter type t1: the problem parser annotates the fact with the
+# declared type, the trajectory parser (given a problem) with the object's own type -- same ground fact, two routes
+SUB_ATOMS = ["(p o3)", "(q o3 o1)", "(r)"]
+
+
+def via_trajectory_parser(world, state):
+    """rebuild every fact of `state` the way TrajectoryParser(domain, problem) builds it"""
+    from pddl_plus_parser.lisp_parsers import TrajectoryParser
+    parser = TrajectoryParser(world.domain, world.problem)
+    for key, facts in list(state.state_predicates.items()):
+        state.state_predicates[key] = {
+            parser.parse_grounded_predicate(lib._ast(gp.untyped_representation), world.domain.predicates[gp.name]) for gp in facts}
+    return state
+
 FLUENTS = ["(f o1)", "(g)", "(h o2 o2)"]
 
 
@@ -58,6 +72,8 @@ def run_pair(task):
             sa, _ = world.make_state({a: SymBool(va[a]) for a in atoms_a}, {f: SymReal(xa[f]) for f in fl_a})
             fb = list(reversed(fl_b)) if task["reverse_b"] else list(fl_b)
             sb, _ = world.make_state({a: SymBool(vb[a]) for a in order_b}, {f: SymReal(xb[f]) for f in fb})
+            if task.get("route_b") == "trajectory":
+                via_trajectory_parser(world, sb)
             if task.get("empty_keys"):
                 # states built by the parsers and by delete effects hold (possibly empty) sets for predicates without facts
                 for s_ in (sa, sb):
@@ -137,6 +153,8 @@ def concrete_pair(task, A, B, XA, XB):
     sa, _ = world.make_state({a: A[a] for a in atoms_a}, dict(XA))
     fb = list(reversed(task["fluents_b"])) if task["reverse_b"] else list(task["fluents_b"])
     sb, _ = world.make_state({a: B[a] for a in order_b}, {f: XB[f] for f in fb})
+    if task.get("route_b") == "trajectory":
+        via_trajectory_parser(world, sb)
     if task.get("empty_keys"):
         for s_ in (sa, sb):
             for pred in world.domain.predicates.values():
@@ -203,6 +221,11 @@ def tasks_for(tier):
             for rev in (False, True):
                 tasks.append({"atoms": atoms, "fluents_a": list(fa), "fluents_b": list(fb), "reverse_b": rev,
                               "empty_keys": rev != (len(fa) % 2 == 0)})
+    # the two states are built by different routes of the library (problem parser vs trajectory parser with a problem)
+    for fa in (FLUENTS[:1], []):
+        for rev in (False, True):
+            tasks.append({"atoms": SUB_ATOMS, "fluents_a": list(fa), "fluents_b": list(fa), "reverse_b": rev,
+                          "empty_keys": rev, "route_b": "trajectory"})
     return tasks
 
 
@@ -254,7 +277,7 @@ def main(tier):
         "samples": samples or [{"note": "none"}], "outcomes": dict(c), "paths": paths, "obligations": obligations, "queries": q,
         "unconfirmed_counterexamples": unconfirmed, "exhaustive": True,
         "bounds": {"atoms": "3-4 ground atoms per state (unary, binary, repeated-argument, zero-arity)", "fluents": "0-3 fluents "
-                   "(unary, zero-arity, repeated-argument), equal or different fluent sets", "orders": "same / reversed insertion order",
+                   "(unary, zero-arity, repeated-argument), equal or different fluent sets", "orders": "same / reversed insertion order", "routes": "both states by the problem parser; or the second by the trajectory parser with a problem (facts of a subtype object carry the object's own type)",
                    "outside": "-0.0 vs 0.0, NaN; larger states (the boolean part is decided at state construction; the solver's "
                               "contribution is the value-equality dimension and exhaustiveness)"},
         "functions_executed_symbolically": ["State.__eq__", "State.copy", "State.serialize", "GroundedPredicate.copy/__hash__/"
